@@ -83,6 +83,7 @@ type Gen struct {
 	overflow bool
 	curFunc  string
 	axioms   []string
+	noAssume map[string]bool // obligations (by name) that must not be assumed after being stated (known findings)
 }
 
 func newGen(P *Program, mode, pkgPath string) *Gen {
